@@ -149,6 +149,7 @@ type Machine struct {
 	sharedLog      []*Term
 	absBuf         bool
 	absBufs        map[*Value]Str
+	absCaps        map[*Value]*Term
 	udps           map[*Value]*udpState
 	sinks          map[string][]*udpState
 	sinkCount      int
@@ -1276,6 +1277,10 @@ func (th *Thread) equal(a, b Value) *Term {
 		}
 		if !types.Identical(a.T, bi.T) {
 			return m.ts.Bool(false)
+		}
+		switch a.T.Underlying().(type) {
+		case *types.Slice, *types.Map, *types.Signature:
+			th.rtPanic("comparing uncomparable type " + a.T.String())
 		}
 		return th.equal(a.V, bi.V)
 	case Struct:
